@@ -144,6 +144,14 @@ static void record_sample(struct cmb_priorityqueue *pqp) {
     }
 }
 
+void cmi_priorityqueue_shortened(struct cmb_priorityqueue *pqp)
+{
+    cmb_assert_release(pqp != NULL);
+
+    record_sample(pqp);
+    cmb_resourceguard_signal(&(pqp->rear_guard));
+}
+
 void cmb_priorityqueue_recording_start(struct cmb_priorityqueue *pqp)
 {
     cmb_assert_release(pqp != NULL);
